@@ -976,6 +976,9 @@ def check_query_paths(ctx):
     okx = okx and all(any(g is k['call'] for k in cases) for g in seen) and all(sum(1 for g in seen if g is k['call']) == 1 for k in cases)
     rep.add('A8', fc.site(exp[0] if exp else None), 'the results of whichever channel ran are exported once to the chosen output', okx,
             expected='exporter.export(output, <result of the query call>)', found=[u(x)[:100] for x in exp], stmt='export call')
+    # ... on every path: the command never returns before the export of its own channel (a guard clause for "nothing / one thing to report" would print nothing)
+    if exp:
+        rep.account_exits('A8', fc, [_stmt_of(fc, x) for x in exp], 'the results are exported')
 
     # ---- query_parse (A3)
     fq = m.func('gambit.query.query_parse')
@@ -1629,6 +1632,7 @@ _RANK_NEW = ("\tranked = @R@\n\twith iter_progress(inputs, pconf, desc='Classify
 _RANK_ALSO = ((_Q, "dists: np.ndarray, input: QueryInput) -> QueryResultItem:", "dists: np.ndarray, input: QueryInput, closest=None) -> QueryResultItem:"),
               (_Q, "for i in np.argsort(dists, kind='stable')[:params.report_closest]]", "for i in (np.argsort(dists, kind='stable')[:params.report_closest] if closest is None else closest)]"))
 VARIANTS = [
+    V('guard clause: a single result is not exported (early-exit probe)', 'B', 'src/gambit/cli/query.py', "\texporter.export(output, results)\n", "\tif len(results.items) == 1:\n\t\treturn\n\texporter.export(output, results)\n", 'A8'),
     V('zip for zip_strict', 'B', _Q, "for label, file in zip_strict(file_labels, files)]", "for label, file in zip(file_labels, files)]", 'A3'),
     V('files sorted in query_parse', 'B', _Q, "\tquery_sigs = calc_file_signatures(db.signatures.kmerspec, files, **parse_kw)", "\tquery_sigs = calc_file_signatures(db.signatures.kmerspec, sorted(files), **parse_kw)", 'A3'),
     V('row 0 for every item', 'B', _Q, "dmat[i, :], input) for i, input in enumerate(inputs_iter)]", "dmat[0, :], input) for i, input in enumerate(inputs_iter)]", 'A4'),
